@@ -92,7 +92,8 @@ class CPoly:
 
 
 class ExprParser:
-    def __init__(self, toks, start, end, vars_):
+    def __init__(self, toks, start, end, vars_, env=None):
+        self.env = env or {}
         self.t = toks
         self.i = start
         self.end = end
@@ -159,6 +160,8 @@ class ExprParser:
                 if not e.is_const() or e.const_value().denominator != 1 or e.const_value() < 0:
                     raise CParseError('line %s: pow with non-natural exponent' % line)
                 return b ** int(e.const_value())
+            if text in self.env:
+                return self.env[text]
             if text not in self.idx:
                 raise CParseError('line %s: unknown identifier %r' % (line, text))
             m = [0] * self.nv
@@ -250,6 +253,40 @@ class CFunction:
                 cases.append((label, body, lab[2]))
             self._eat('}')
             return ('switch', var, cases, tok[2])
+        if tok[1] in ('double', 'int', 'float', 'const', 'unsigned', 'long') and tok[0] == 'id':
+            # local declaration (no initialiser expected in the table files): skipped
+            while self._peek()[1] != ';':
+                if self._peek()[1] == '=':
+                    raise CParseError('%s line %s: initialised declaration' % (self.name, tok[2]))
+                self._eat()
+            self._eat(';')
+            return ('decl', tok[2])
+        if tok[1] == 'break':
+            self._eat()
+            self._eat(';')
+            return ('break', tok[2])
+        if tok[1] == 'for':
+            # for (i = LO; i < BOUND; i++) { stmts }
+            self._eat()
+            self._eat('(')
+            var = self._eat()[1]
+            self._eat('=')
+            lo = self._eat()[1]
+            self._eat(';')
+            v2 = self._eat()[1]
+            self._eat('<')
+            bound = self._eat()[1]
+            self._eat(';')
+            v3 = self._eat()[1]
+            self._eat('+')
+            self._eat('+')
+            self._eat(')')
+            if v2 != var or v3 != var:
+                raise CParseError('%s line %s: loop header uses several variables' % (self.name, tok[2]))
+            self._eat('{')
+            body = self._stmts(end)
+            self._eat('}')
+            return ('for', var, lo, bound, body, tok[2])
         if tok[1] == 'return':
             self._eat()
             if self._peek()[1] == ';':
@@ -259,20 +296,37 @@ class CFunction:
             return ('return', rng, tok[2])
         if tok[0] == 'id':
             name = self._eat()[1]
-            self._eat('[')
-            idx = int(self._eat()[1])
-            self._eat(']')
+            if self._peek()[1] == '[':
+                self._eat('[')
+                it = self._eat()
+                self._eat(']')
+                self._eat('=')
+                rng = self._skip_expr()
+                if it[0] == 'num':
+                    return ('store', name, int(it[1]), rng, tok[2])
+                return ('storev', name, it[1], rng, tok[2])
+            # scalar local:  x = e;  x += e;  x -= e;  x *= e;
+            op = '='
+            if self._peek()[1] in ('+', '-', '*') and self.toks[self.i + 1][1] == '=':
+                op = self._eat()[1] + '='
             self._eat('=')
             rng = self._skip_expr()
-            return ('store', name, idx, rng, tok[2])
+            return ('assign', name, op, rng, tok[2])
         raise CParseError('%s line %s: unexpected %r' % (self.name, tok[2], tok[1]))
 
-    def expand(self, rng):
-        p = ExprParser(self.toks, rng[0], rng[1], self.vars)
+    def expand(self, rng, env=None):
+        if isinstance(rng, tuple) and len(rng) == 2 and rng[0] == 'poly':
+            return rng[1]
+        p = ExprParser(self.toks, rng[0], rng[1], self.vars, env)
         v = p.expr()
         if p.i != rng[1]:
             raise CParseError('%s line %s: trailing tokens in expression' % (self.name, self.toks[p.i][2]))
         return v
+
+
+def defines(path):
+    """#define NAME <integer> of a C file"""
+    return {m.group(1): int(m.group(2)) for m in re.finditer(r'^\s*#\s*define\s+(\w+)\s+(\d+)\s*$', open(path).read(), re.M)}
 
 
 def parse_file(path):
@@ -376,11 +430,28 @@ def switch_table(fn, depth):
                     else:
                         key = prefix + (label,)
                         if len(key) == depth:
-                            if len(body) != 1 or body[0][0] != 'return' or body[0][1] is None:
-                                raise CParseError('%s line %s: case %s is not a single return (fall-through?)' % (fn.name, line, key))
+                            if not body or body[-1][0] != 'return' or body[-1][1] is None or any(b[0] != 'assign' for b in body[:-1]):
+                                raise CParseError('%s line %s: case %s is not (local assignments +) a single return (fall-through?)' % (fn.name, line, key))
                             if key in entries:
                                 raise CParseError('%s line %s: duplicate case %s' % (fn.name, line, key))
-                            entries[key] = (body[0][1], line)
+                            if len(body) == 1:
+                                entries[key] = (body[0][1], line)
+                            else:
+                                # partial sums in local scalars: evaluated in order, the returned expression sees their values
+                                env = {}
+                                for _, nm, op, rng, ln in body[:-1]:
+                                    v = fn.expand(rng, env)
+                                    if op == '=':
+                                        env[nm] = v
+                                    elif nm not in env:
+                                        raise CParseError('%s line %s: %s used before it is set' % (fn.name, ln, nm))
+                                    elif op == '+=':
+                                        env[nm] = env[nm] + v
+                                    elif op == '-=':
+                                        env[nm] = env[nm] - v
+                                    else:
+                                        env[nm] = env[nm] * v
+                                entries[key] = (('poly', fn.expand(body[-1][1], env)), line)
                         else:
                             if not body:
                                 raise CParseError('%s line %s: empty case %s (fall-through)' % (fn.name, line, key))
@@ -390,6 +461,8 @@ def switch_table(fn, depth):
             elif st[0] == 'return':
                 # trailing return after the outer switch (unreachable default)
                 defaults.append((prefix, st[1], st[2]))
+            elif st[0] == 'decl':
+                continue
             else:
                 raise CParseError('%s line %s: unexpected statement in table' % (fn.name, st[-1]))
 
